@@ -777,11 +777,24 @@ def m_ref_ord(I, st, args, dty, site):
     which = site['callee'].rsplit('::', 1)[1]
     if _intarg(a) and _intarg(b):
         return [(st, I.binop(st, {'lt': 'Lt', 'le': 'Le', 'gt': 'Gt', 'ge': 'Ge'}[which], a, b, {'k': 'bool'}, None, None))]
+    truth = {'lt': {0}, 'le': {0, 1}, 'gt': {2}, 'ge': {1, 2}}[which]
     if a is not None and b is not None and a[0] == 't' and b[0] == 't':
         r = _lex_ordering(I, st, list(a[1]), list(b[1]))
         if r is not None:
-            truth = {'lt': {0}, 'le': {0, 1}, 'gt': {2}, 'ge': {1, 2}}[which]
             return [(s, const_int(1 if vi in truth else 0, 'bool')) for s, vi in r]
+    if a is not None and a[0] in ('s', 'e'):
+        # a crate type: through its own partial_cmp
+        cand = f"<{a[1]} as std::cmp::PartialOrd>::partial_cmp"
+        if cand in I.bodies:
+            ra, rb = ('r', I.alloc(st, a)), ('r', I.alloc(st, b))
+            outs = []
+            for s2, v in I.call_body(st, cand, [ra, rb], site):
+                if v[0] == 'e' and 1 in v[2] and v[2][1][0][0] == 'e':
+                    for vi in v[2][1][0][2]:
+                        outs.append((s2.clone(), const_int(1 if vi in truth else 0, 'bool')))
+                else:
+                    outs.append((s2, I.top(s2, {'k': 'bool'}, 'cmp')))
+            return outs
     return None
 
 
